@@ -39,3 +39,13 @@ package config
 //@ func DefaultHooks
 //@ props C17
 //@ ensures [placeholders-first] len(result) == 7 && result[0] == box(VariableInjectHook)
+
+// An endpoint is "host:port" or ":port": the port is always required and must be valid; a host, when given, must be valid.
+//@ func EndpointStringValidation
+//@ props C17
+//@ modifies nothing
+//@ ensures [must-split-into-host-and-port] imp(result, result_of(net.SplitHostPort, 2) == nil)
+//@ ensures [a-valid-port-is-always-required] imp(result, govalidator.IsPort(result_of(net.SplitHostPort, 1)))
+//@ ensures [a-given-host-must-be-valid] imp(result && result_of(net.SplitHostPort, 0) != "", govalidator.IsHost(result_of(net.SplitHostPort, 0)))
+//@ ensures [valid-endpoints-are-accepted] imp(result_of(net.SplitHostPort, 2) == nil && (result_of(net.SplitHostPort, 0) == "" || govalidator.IsHost(result_of(net.SplitHostPort, 0))) && govalidator.IsPort(result_of(net.SplitHostPort, 1)), result)
+//@ at call net.SplitHostPort assert arg(a0) == value0
